@@ -30,7 +30,7 @@ MANIFEST_INFO = {
     "engine": "B",
     "design_ref": "DESIGN.md section 5, C20",
     "technique": "explicit-state BFS over histories of callback/errback/addCallback/match/extract_result operations on real twisted Deferreds (rebuilt by replay), abstract Deferred state machine as reference; exactly-one classification checked on three fresh replays per state; unhandled-error logging observed after dropping the Deferred; SynchronousDeferredRunTest compared differentially with the plain RunTest over generated programs",
-    "level_text": "All histories of <= 6 (quick) / 8 (thorough) operations over 7 firings (None, 0, 'x', a value that compares equal to everything, an exception instance as the value, a callback returning an already-fired Deferred, a callback returning an unfired Deferred that fires later), 3 failures (one an IndexError subclass, one a cleaned Failure), 3 callback shapes, has_no_result / succeeded(m) / failed(m) for 4 inner matchers and extract_result are applied to a fresh real Deferred; every verdict is compared with the model, `called` is compared before and after each match, the value later callbacks see is compared with the model's, and a failure inspected by succeeded()/failed() must not be logged as unhandled when the Deferred is dropped. For every generated program with <= 2 deviating stages the result log of SynchronousDeferredRunTest on stages returning already-fired Deferreds equals that of RunTest on the plain stages (cleanups with keyword arguments named fn, result, function and f included); one canned already-fired Deferred returned by two tests run one after the other is reported as error-then-success / success-success.",
+    "level_text": "All histories of <= 6 (quick) / 8 (thorough) operations over 7 firings (None, 0, 'x', a value that compares equal to everything, an exception instance as the value, a callback returning an already-fired Deferred, a callback returning an unfired Deferred that fires later), 3 failures (one an IndexError subclass, one a cleaned Failure), 3 callback shapes, has_no_result / succeeded(m) / failed(m) for 4 inner matchers and extract_result (called with Deferred debugging switched on) are applied to a fresh real Deferred; every verdict is compared with the model, `called` is compared before and after each match, the value later callbacks see is compared with the model's, and a failure inspected by succeeded()/failed() must not be logged as unhandled when the Deferred is dropped. For every generated program with <= 2 deviating stages the result log of SynchronousDeferredRunTest on stages returning already-fired Deferreds equals that of RunTest on the plain stages (cleanups with keyword arguments named fn, result, function and f included); one canned already-fired Deferred returned by two tests run one after the other is reported as error-then-success / success-success.",
     "level_note": "CPython reference counting makes 'dropped' deterministic; inspecting a failure consumes it (the Deferred then holds None), as the 'marked handled' clause implies.",
 }
 
